@@ -1,0 +1,15 @@
+//go:build verif
+
+package shell_operator
+
+import (
+	"github.com/flant/shell-operator/pkg/task"
+	"github.com/flant/shell-operator/pkg/task/queue"
+)
+
+// VerifCombine exposes the combiner the task handler really uses
+// (combineBindingContextForHook; the exported CombineBindingContextForHook is a
+// separate copy kept for addon-operator) to the monitors under /verif.
+func (op *ShellOperator) VerifCombine(q *queue.TaskQueue, t task.Task, stopCombineFn func(tsk task.Task) bool) *CombineResult {
+	return op.combineBindingContextForHook(op.TaskQueues, q, t, stopCombineFn)
+}
